@@ -222,9 +222,9 @@ func makeMethodArshaler(fncs *arshaler, t reflect.Type) *arshaler {
 			xe.Flags.Set(jsonflags.WithinArshalCall | 1)
 			marshaler, _ := reflect.TypeAssert[MarshalerTo](va.Addr())
 			prevFloor := xe.Tokens.Floor
-			xe.Tokens.Floor = len(xe.Tokens.Stack) // the method may not close the enclosing object or array
+			xe.Tokens.Floor = len(xe.Tokens.Stack)         // the method may not close the enclosing object or array
+			defer func() { xe.Tokens.Floor = prevFloor }() // also when the user code panics
 			err := marshaler.MarshalJSONTo(enc)
-			xe.Tokens.Floor = prevFloor
 			xe.Flags.Set(jsonflags.WithinArshalCall | 0)
 			currDepth, currLength := xe.Tokens.DepthLength()
 			if (prevDepth != currDepth || prevLength+1 != currLength) && err == nil {
@@ -324,9 +324,9 @@ func makeMethodArshaler(fncs *arshaler, t reflect.Type) *arshaler {
 			xd.Flags.Set(jsonflags.WithinArshalCall | 1)
 			unmarshaler, _ := reflect.TypeAssert[UnmarshalerFrom](va.Addr())
 			prevFloor := xd.Tokens.Floor
-			xd.Tokens.Floor = len(xd.Tokens.Stack) // the method may not close the enclosing object or array
+			xd.Tokens.Floor = len(xd.Tokens.Stack)         // the method may not close the enclosing object or array
+			defer func() { xd.Tokens.Floor = prevFloor }() // also when the user code panics
 			err := unmarshaler.UnmarshalJSONFrom(dec)
-			xd.Tokens.Floor = prevFloor
 			xd.Flags.Set(jsonflags.WithinArshalCall | 0)
 			currDepth, currLength := xd.Tokens.DepthLength()
 			if (prevDepth != currDepth || prevLength+1 != currLength) && err == nil {
